@@ -415,7 +415,29 @@ do_case(int mask, int dt, int variants, const struct val_s *A, const struct val_
 				long long ty = pe->isoy + c[0];
 				clamps = ty > RC_MAX_YEAR || rc_isoweeks((int)ty) < 53;
 			}
-			if (clamps) {
+			if (clamps && cls == 2 && !bad) {
+				/* start in ISO week 53 and the application would clamp: judge by arithmetic alone.
+				 * The printed years span the ISO years starting with the earlier operand's
+				 * (364 or 371 days each); years + weeks x 7 + days (+ time) must be the plain
+				 * difference truncated to the finest requested unit */
+				long long tot = 0;
+				EX_CTR(c_w53, "judged_by_arithmetic:years+weeks chains from ISO week 53");
+				++*c_w53;
+				for (long long k = 0; k < c[0] && pe->isoy + k <= RC_MAX_YEAR; k++) {
+					tot += rc_isoweeks(pe->isoy + (int)k) * 604800LL;
+				}
+				for (int i = 2; i < NU; i++) {
+					if (mask & (1 << i)) {
+						tot += c[i] * USEC[i];
+					}
+				}
+				if (tot > ad || ad - tot >= USEC[fin]) {
+					snprintf(why, sizeof(why), "the earlier operand lies in ISO week 53 of %d: %lld ISO year(s) from there plus the printed weeks, days and time are %lld s, "
+						 "the plain difference is %lld s (must agree up to the finest unit)", pe->isoy, c[0], tot, ad);
+					report(K_SUM, mask, dt, expect_neg, 0, ord, A, B, fmt, txt, why);
+					bad++;
+				}
+			} else if (clamps) {
 				EX_CTR(c_clamp, "skipped:application of a month/year chain that passes a month without the start's day-of-month (or a year without week 53): dadd clamps, ambiguous");
 				++*c_clamp;
 			} else if (!bad) {
@@ -1372,7 +1394,7 @@ main(int argc, char *argv[])
 		"expressible are judged by months < 12 under years, generous natural ranges (days < 31 under months, < 366 under years, weeks < 54 under "
 		"years, ...) and by application: earlier (+) components through dadd's parser and dt_dtadd must not pass the later value and be less than one "
 		"finest unit short (years+weeks chains are applied to the ISO week date operand, as ddiff counts them; only when no step of the application passes a month "
-		"without the start's day-of-month, resp. a year without week 53, where dadd clamps); %d subsets the documentation declares inexpressible (month/year with a time unit but no %%d) are judged for sign and parseable output only; "
+		"without the start's day-of-month, resp. a year without week 53, where dadd clamps; years+weeks chains from ISO week 53 are judged by arithmetic there: ISO years spanned from the earlier operand + weeks x 7 + days = plain difference up to the finest unit); %d subsets the documentation declares inexpressible (month/year with a time unit but no %%d) are judged for sign and parseable output only; "
 		"sign: exactly one '-', in front, iff the second operand is earlier (not judged on all-zero output); for date-time pairs the ascending and a "
 		"rotated order and the %%0 and '%% ' paddings must print the same numbers. non-trivial = the time-of-day difference (for dates: the day-of-month difference) "
 		"runs against the day difference (borrow); repeated specifiers: every occurrence of a specifier prints the number the single occurrence prints "
@@ -1397,6 +1419,7 @@ main(int argc, char *argv[])
 		"both orders x 127 subsets; (g) the 420 date-times, all ordered pairs x 17 formats with %%db (with and without %%w, all subsets of %%H %%M %%S, and bizsi); "
 		"(h) the 432 date-times of (d), all ordered pairs x 51 formats with %%rS next to months, years or business days; "
 		"(i) dates: day-of-year 58..61 of 1896 1899 1900 1903 1904 1999 2000 2001 2096 2100 against every day of the following two years, both orders x the 64 subsets with %%Y; "
+		"(k) dates: every day of ISO week 53 of 1998 2004 2009 2015 2020 against every day of the following 800, both orders x the 16 years+weeks subsets; "
 		"(j) 12 date-times x fractions .0 .1 .5 .9 .999999999 = 60 operands, all ordered pairs x 127 subsets (month/year chains: sign and shape only)",
 		nd, ni, ex.thorough ? "1997-2004 and 1897-1904" : "1997-2004", K, K, ni, ni + NLEAPI, NLEAPI, ndup);
 	ex_meta("binding", "ddiff REF -f SUBSET < date-times, byte-compared with the included pipeline");
@@ -1485,6 +1508,37 @@ main(int argc, char *argv[])
 					/* odd masks: the ones with %Y */
 					do_case(m, 0, 0, &A, &B, &Aw, &Bw);
 					do_case(m, 0, 0, &B, &A, &Bw, &Aw);
+				}
+			}
+			++*c_traces;
+		}
+	}
+	/* (k) every day of ISO week 53 of five years against every day of the following 800, years+weeks chains */
+	{
+		static const int wy[5] = {1998, 2004, 2009, 2015, 2020};
+		for (int k = 0; k < 35 && !ex_expired(); k++, slice++) {
+			struct val_s A, Aw, B, Bw;
+			int a;
+			if (!ex_mine((uint64_t)slice)) {
+				continue;
+			}
+			/* Dec 28 always lies in the last ISO week */
+			a = rc_rd(wy[k / 7], 12, 28);
+			a = a - (rc_get(a)->wd - 1) + k % 7;
+			if (rc_get(a)->isow != 53) {
+				continue;
+			}
+			prep(&A, CAL_YMD, a, -1);
+			prep(&Aw, CAL_YWD, a, -1);
+			++*c_states;
+			for (int b = a + 1; b <= a + 800 && b < RC_NDAYS; b++) {
+				prep(&B, CAL_YMD, b, -1);
+				prep(&Bw, CAL_YWD, b, -1);
+				for (int m = 1; m < NMASK; m++) {
+					if (mclass[m] == 2) {
+						do_case(m, 0, 0, &A, &B, &Aw, &Bw);
+						do_case(m, 0, 0, &B, &A, &Bw, &Aw);
+					}
 				}
 			}
 			++*c_traces;
